@@ -264,13 +264,16 @@ int main(int argc, char** argv) {
         int s3b = r.range(3, 12); int var = r.below(2);
         double lb = r.range(-40, 40) / 8.0 + (r.coin() ? 0.0 : r.range(1, 9) / 10.0), diam = r.range(1, 40) / 4.0 + (r.coin() ? 0.0 : r.range(1, 9) / 10.0);
         volatile double ub = lb + diam; volatile double w = (ub - lb) / s3b;
-        int k = r.range(1, s3b - 1);
-        volatile double b1 = lb + k * w; volatile double b0 = lb + (k - 1) * w; volatile double b2 = b0 + w;
-        double lo = std::min((double)b1, (double)b2), hi = std::max((double)b1, (double)b2);
-        for (int q = 0; q < 2; q++) { lo = std::nextafter(lo, -1e300); hi = std::nextafter(hi, 1e300); }
-        vector<double> cand; for (double c = lo; c <= hi && cand.size() < 64; c = std::nextafter(c, 1e300)) cand.push_back(c);
-        for (int rep = 0; rep < 4 && !cand.empty(); rep++) {
-          double c = cand[r.below(cand.size())];
+        // every slice end point k: the two ways of computing it; the floats BETWEEN the two values (when they differ) come first
+        vector<double> cand;
+        for (int k = 1; k < s3b; k++) { volatile double b1 = lb + k * w; volatile double b0 = lb + (k - 1) * w; volatile double b2 = b0 + w;
+          double lo = std::min((double)b1, (double)b2), hi = std::max((double)b1, (double)b2);
+          if (lo != hi) for (double c = lo; c <= hi && cand.size() < 48; c = std::nextafter(c, 1e300)) cand.push_back(c); }
+        { int k = r.range(1, s3b - 1); volatile double b1 = lb + k * w; double c = b1; for (int q = 0; q < 2; q++) c = std::nextafter(c, -1e300);
+          for (int q = 0; q < 5; q++) { cand.push_back(c); c = std::nextafter(c, 1e300); } }
+        size_t next_cand = 0;
+        for (int rep = 0; rep < 10 && next_cand < cand.size(); rep++) {
+          double c = cand[next_cand++];
           const ExprNode& e1 = sx[0] - sx[1];
           const ExprNode& e2 = sx[0] + sx[1] - ExprConstant::new_scalar(2 * c);
           SystemFactory fac; fac.add_var(sx); fac.add_ctr(ExprCtr(e1, EQ)); fac.add_ctr(ExprCtr(e2, EQ));
